@@ -115,6 +115,8 @@ package f64
 
 //@ func Sum props: C07(safety) C08
 //@ writes nothing
+//@ ensures [real] forall(k, 0, len(x), x[k] >= 0) ==> result >= 0
+//@ loop 1: invariant [real] forall(k, 0, len(x), x[k] >= 0) ==> sum >= 0
 
 //@ func L2NormUnitary props: C07(safety) C08
 //@ writes nothing
